@@ -81,10 +81,17 @@ pub fn ops<T: Sym, N: ArrayLength, const R: usize>() {
 /// tracked elements with a heap payload: a double drop is a double free, a lost element is a leak
 pub fn ops_payload<T, N: ArrayLength, const R: usize>() {
     let n = N::USIZE;
-    let op = any_upto(3);
+    let op = any_upto(4);
     kani_cover!(op == 3);
+    kani_cover!(op == 4);
     match op {
         0 => { let b = Box::<GenericArray<TrBox, N>>::generate(TrBox::new); let v = b.into_vec(); drop(v); }
+        4 => {
+            // repeat form of box_arr! with a heap-owning operand: the operand and every clone of it own a block (N = 0: the operand alone)
+            let b: Box<GenericArray<Box<u8>, N>> = generic_array::box_arr![Box::new(any_u8()); N];
+            assert!(b.len() == n);
+            drop(b);
+        }
         1 => {
             let c = any_upto(n + 1);
             let r = GenericArray::<TrBox, N>::try_boxed_from_iter((0..c).map(TrBox::new));
